@@ -598,9 +598,15 @@ def prop_spec(case):
 
     fronts = []
     py = spec_python(case)
+    given = copy.deepcopy(py)
     with expect_ok(clause("object", "load")):
-        loaded = Parameters.from_list(copy.deepcopy(py)) if case["kind"] == "list" else Parameters.from_dict(copy.deepcopy(py))
+        loaded = Parameters.from_list(given) if case["kind"] == "list" else Parameters.from_dict(given)
     fronts.append(("object", loaded))
+    # the specification is the caller's: it is not changed by being read, so reading the same object again gives the same set
+    check(given == py, f"{sub}.object.specification_changed_by_loading", lambda: f"{py!r} -> {given!r}")
+    with expect_ok(clause("object_again", "load")):
+        loaded = Parameters.from_list(given) if case["kind"] == "list" else Parameters.from_dict(given)
+    fronts.append(("object_again", loaded))
     text = spec_yaml(case)
     mangled = "//" in text
     yml_front = "yml_str_floordiv" if mangled else "yml_str"
